@@ -25,6 +25,14 @@ type LayoutOpts struct {
 	AbsInner    bool // v0/v1 compressed wrappers with absolute inner offsets
 	Headers     bool
 	Stream      string
+	// LogAppend: some format-1/2 batches carry the LogAppendTime timestamp-type
+	// attribute (all their records then share one timestamp, so that readers
+	// that honour the flag and readers that ignore it agree)
+	LogAppend bool
+	// FarFuture: some batches carry timestamps around and beyond the largest
+	// millisecond count whose nanoseconds fit an int64 (year 2262), up to the
+	// largest int64
+	FarFuture bool
 }
 
 // genBatch builds one physical batch holding `n` consecutive offsets starting
@@ -38,12 +46,19 @@ func genBatch(t *Tape, o LayoutOpts, base int64, n int, ts *int64, tag string) r
 	}
 	b := rc.Batch{Magic: magic, Codec: codec, BaseOffset: base, LastOffsetDelta: int32(n - 1), ProducerID: -1, ProducerEpoch: -1, BaseSequence: -1, PartitionLeaderEpoch: 0}
 	keys := [][]byte{nil, {}, []byte("k"), []byte("key-longer")}
+	far := int64(-1)
+	if o.FarFuture && t.Intn(st, 5) == 0 {
+		far = []int64{9223372036854 - 2, 9223372036854775807 - int64(n), 1 << 53}[t.Intn(st, 3)]
+	}
 	for i := 0; i < n; i++ {
 		off := base + int64(i)
 		*ts += int64(t.Intn(st, 3))
 		pad := Pick(t, st, 0, 0, 3, 30, 200)
 		val := append([]byte(fmt.Sprintf("%s%d|", tag, off)), bytes.Repeat([]byte{'v'}, pad)...)
 		r := rc.Record{Offset: off, Timestamp: *ts, Key: keys[t.Intn(st, len(keys))], Value: val}
+		if far >= 0 {
+			r.Timestamp = far + int64(i)
+		}
 		if magic == 0 {
 			r.Timestamp = -1
 		}
@@ -51,6 +66,12 @@ func genBatch(t *Tape, o LayoutOpts, base int64, n int, ts *int64, tag string) r
 			r.Headers = []rc.Header{{Key: "h1", Value: []byte("x")}, {Key: "h2", Value: nil}}[:t.Range(st, 1, 2)]
 		}
 		b.Records = append(b.Records, r)
+	}
+	if o.LogAppend && magic >= 1 && t.Intn(st, 5) == 0 {
+		b.LogAppendTime = true
+		for i := range b.Records {
+			b.Records[i].Timestamp = b.Records[0].Timestamp
+		}
 	}
 	if magic == 2 {
 		b.FirstTimestamp = b.Records[0].Timestamp
@@ -325,6 +346,8 @@ func readerScenario(s *Sim, params map[string]string) {
 	lo.EmptyBatch = lo.Holes && t.Intn("cfg", 2) == 0
 	lo.MissingTail = lo.Holes && t.Intn("cfg", 2) == 0
 	lo.AbsInner = t.Intn("cfg", 4) == 0
+	lo.FarFuture = t.Intn("farfuture", 3) == 0
+	lo.LogAppend = t.Intn("farfuture", 3) == 0
 	if v := params["layout"]; v == "plain" {
 		lo.Holes, lo.EmptyBatch, lo.MissingTail, lo.AbsInner = false, false, false, false
 	}
